@@ -155,8 +155,8 @@ class UdpInverterProtocol(InverterProtocol, asyncio.DatagramProtocol):
                 self._partial_missing = 0
             if self.command.validator(data):
                 logger.debug("Received: %s", data.hex())
-                self._retry = 0
                 self.response_future.set_result(data)
+                self._retry = 0
             else:
                 logger.debug("Received invalid response: %s", data.hex())
                 if self.response_future and not self.response_future.done():
